@@ -25,6 +25,9 @@ enum Op {
     Close,
     Read { addr: u64, n: usize },
     Write { addr: u64, n: usize, pat: u64 },
+    /// recovery only: if the device still has unfetched packets queued, a 4-byte read that may
+    /// fail (it drains stale packets) but must never return wrong data; skipped otherwise
+    Settle,
 }
 
 #[derive(Clone, Debug)]
@@ -114,6 +117,7 @@ fn op_json(o: &Op) -> Value {
     match o {
         Op::Open => json!({"op": "open"}),
         Op::Close => json!({"op": "close"}),
+        Op::Settle => json!({"op": "settle"}),
         Op::Read { addr, n } => json!({"op": "read", "addr": addr.to_string(), "n": n}),
         Op::Write { addr, n, pat } => json!({"op": "write", "addr": addr.to_string(), "n": n, "pat": pat}),
     }
@@ -125,6 +129,7 @@ fn op_from(v: &Value) -> Op {
     match v["op"].as_str().unwrap() {
         "open" => Op::Open,
         "close" => Op::Close,
+        "settle" => Op::Settle,
         "read" => Op::Read { addr: a("addr"), n: u("n") as usize },
         "write" => Op::Write { addr: a("addr"), n: u("n") as usize, pat: u("pat") },
         other => panic!("unknown op {other}"),
@@ -291,6 +296,8 @@ fn run_session(rep: &mut Report, spec: &SessionSpec, label: &str) {
     let mut violate = |rep: &mut Report, kind: &str, op: &str, what: String| {
         rep.violation(json!({"kind": kind, "op": op, "faults": classes}), &what, spec_json(spec));
     };
+    let mut last_buf_len = 0usize; // size of the host's receive buffer as last seen on the wire
+    let mut last_sent_id: Option<u16> = None; // request id of the last command seen on the wire
     let mut recovering = false; // an error was seen: the device is conforming from now on
     // an `open` hit by a fault returned Ok: the negotiated configuration may be garbage (the
     // fault corrupted the payload of a bootstrap register read, which no host can detect)
@@ -300,9 +307,30 @@ fn run_session(rep: &mut Report, spec: &SessionSpec, label: &str) {
     let mut ops: Vec<Op> = spec.ops.clone();
     let mut i = 0;
     while i < ops.len() {
-        let op = ops[i].clone();
+        let mut op = ops[i].clone();
         i += 1;
+        // a settle step: only while stale packets are queued; must succeed at once when fewer
+        // well-formed stale acknowledges than the retry budget are queued
+        let mut settle: Option<bool> = None;
+        if matches!(op, Op::Settle) {
+            let unf = usb.lock().unfetched();
+            if unf.is_empty() || !h.is_opened() {
+                continue;
+            }
+            // (a forged acknowledge that carries the id of an UPCOMING command is not a leftover of
+            // an abandoned command: the hostile phase is still in the pipe)
+            let clean = unf.iter().all(|p| p.len() <= last_buf_len.max(24) && decode_ack(p).is_some_and(|a| {
+                a.status == 0 && [0x0801, 0x0803, 0x0805].contains(&a.kind)
+                    && last_sent_id.is_none_or(|l| a.request_id.wrapping_sub(l).wrapping_sub(1) >= 16)
+            }));
+            let idx = usb.lock().txn;
+            let k = if spec.plan.is_empty() { 0 } else { spec.plan[(idx % spec.plan.len() as u64) as usize] } as usize;
+            settle = Some(clean && unf.len() + k < spec.retry as usize);
+            op = Op::Read { addr: 0x7300, n: 4 };
+        }
         let txn0 = usb.lock().txn;
+        let timeout_before = dur_ms(h.timeout_duration());
+        let started = std::time::Instant::now();
         let (name, req, r): (&str, String, Result<Result<Option<Vec<u8>>, &'static str>, ()>) = match &op {
             Op::Open => ("open", "c07 open".into(), guarded(|| h.open().map(|_| None).map_err(|e| control_error_name(&e)))),
             Op::Close => ("close", "c07 close".into(), guarded(|| h.close().map(|_| None).map_err(|e| control_error_name(&e)))),
@@ -311,17 +339,29 @@ fn run_session(rep: &mut Report, spec: &SessionSpec, label: &str) {
                 let r = guarded(|| h.read(*addr, &mut buf).map_err(|e| control_error_name(&e)));
                 ("read", format!("c07 read {addr} {n}"), r.map(|x| x.map(|_| Some(buf))))
             }
+            Op::Settle => unreachable!(),
             Op::Write { addr, n, pat } => {
                 let data = data_pattern(*n, *pat);
                 let r = guarded(|| h.write(*addr, &data).map_err(|e| control_error_name(&e)));
                 ("write", format!("c07 write {addr} {n} {pat}"), r.map(|x| x.map(|_| None)))
             }
         };
+        let elapsed_ms = started.elapsed().as_millis() as u64;
         let wire = usb.lock().take_wire();
         let _ = usb.lock().take_access();
         let txn1 = usb.lock().txn;
         let runaway = std::mem::take(&mut usb.lock().runaway);
         let txns = split_txns(&wire);
+        for w in &wire {
+            if let Wire::Recv { buf_len, .. } = w {
+                last_buf_len = *buf_len;
+            }
+            if let Wire::Send { data, .. } = w {
+                if data.len() >= 12 {
+                    last_sent_id = Some(le(&data[10..12]) as u16);
+                }
+            }
+        }
         opened = h.is_opened();
         let ans = match &r {
             Err(()) => "panic".to_string(),
@@ -331,6 +371,21 @@ fn run_session(rep: &mut Report, spec: &SessionSpec, label: &str) {
         };
         rep.count(&format!("{name}:{}", ans.split(' ').take(2).collect::<Vec<_>>().join("-").replace(|c: char| c.is_ascii_digit() || c == '=', "")));
         // ---- property oracle on the implementation ----
+        // every transfer is given the configured timeout; pending acknowledges are waited for
+        for w in &wire {
+            let t = match w {
+                Wire::Send { timeout_ms, .. } | Wire::Recv { timeout_ms, .. } | Wire::Control { timeout_ms, .. } => *timeout_ms,
+                _ => continue,
+            };
+            if t != timeout_before {
+                violate(rep, "timeout", name, format!("{name}: a transfer was given a timeout of {t} ms, the configured one is {timeout_before} ms"));
+                break;
+            }
+        }
+        let wst = wire_stat(&wire);
+        if elapsed_ms < wst.sleep_ms {
+            violate(rep, "pending-not-awaited", name, format!("{name}: pending acknowledges asked for {} ms, the call returned after {elapsed_ms} ms", wst.sleep_ms));
+        }
         if r.is_err() {
             violate(rep, "panic", name, format!("{name} panicked"));
         }
@@ -416,7 +471,11 @@ fn run_session(rep: &mut Report, spec: &SessionSpec, label: &str) {
             Op::Read { addr, n } | Op::Write { addr, n, .. } => (*addr as u128) + (*n as u128) <= 1u128 << 64,
             _ => true,
         };
-        let expect_ok = !faulted_here && !tainted && in_space && sane_limits(spec) && (opened || matches!(op, Op::Open | Op::Close));
+        let expect_ok = !faulted_here && !tainted && in_space && sane_limits(spec) && (opened || matches!(op, Op::Open | Op::Close))
+            && settle != Some(false);
+        if settle.is_some() {
+            rep.count(if settle == Some(true) { "settle:must-succeed" } else { "settle:may-fail" });
+        }
         if expect_ok && !matches!(r, Ok(Ok(_))) && !(matches!(op, Op::Read { .. } | Op::Write { .. }) && !opened) {
             let kind = if recovering { "not-usable-after-error" } else { "fault-free-op-failed" };
             violate(rep, kind, name, format!("{name} against a conforming device: {ans}"));
@@ -450,6 +509,7 @@ fn run_session(rep: &mut Report, spec: &SessionSpec, label: &str) {
             // channel closed first so that the limits are renegotiated)
             let mut tail = if tainted { vec![Op::Close, Op::Open] } else { vec![Op::Open] };
             tainted = false;
+            tail.extend(std::iter::repeat(Op::Settle).take(450));
             tail.extend([Op::Read { addr: 0x7000, n: 120 }, Op::Write { addr: 0x7100, n: 120, pat: 3 }, Op::Read { addr: 0x7100, n: 120 }, Op::Read { addr: 0x7200, n: 8 }]);
             tail.extend(ops.drain(i..));
             ops.truncate(i);
@@ -530,6 +590,7 @@ fn main() {
                 Op::Close => { let _ = h.close(); }
                 Op::Read { addr, n } => { let mut b = vec![0; *n]; let _ = h.read(*addr, &mut b); }
                 Op::Write { addr, n, pat } => { let _ = h.write(*addr, &data_pattern(*n, *pat)); }
+                Op::Settle => {}
             }
         }
         txn_counts.push(usb.lock().txn);
